@@ -222,7 +222,8 @@ def run(ctx):
         can.append(e)
     verdicts = tlc.validate('Trace_BV', evs + can, chunk=60000)
     ctx.events += len(evs)
-    ctx.exhaustive = True
+    ctx.exhaustive = False
+    ctx.extra['exhaustive_subspaces'] = ['every helper on every operand tuple at widths 1..%d' % wmax, 'all 4096 x 2 modified immediates', 'all (type, imm5)']
     ctx.extra['rule'] = ('every helper of bits_ops.py/shift.py on EVERY operand tuple at widths 1..%d and amounts %s; '
                          'all 4096x2 ARM and Thumb modified immediates; all 128 (type,imm5); width 32: K32 corners + '
                          'seeded random x every amount; a case is one (helper, width, argument tuple), all distinct'
